@@ -901,8 +901,8 @@ def literal_family():
     for w in range(20):
         H("c07_parse_literal_%d" % w, "h_text::parse_literals(%d)" % w, Q("C07"), unwind=12, bound="LITERAL POINT: from_str_with_radix_prefix on one literal text (case %d of 20: signs after the prefix, doubled signs, empty bodies, digits outside the radix, upper-case prefix, leading space)" % w)
     for w in range(20):
-        H("c13_inv_large_literal_%d" % w, "h_mod::ring_inv_large_literals(%d)" % w, Q("C13"), unwind=16,
-          bound="LITERAL POINT: inv_large (hook verif_inv_large) in a 3-word ring m = (2^64+1)*c, case %d of 20: residues of 1-3 words with and without a common factor with m, expected value a constant computed outside" % w)
+        H("c13_inv_large_literal_%d" % w, "h_mod::ring_inv_large_literals(%d)" % w, {"C13": "probe"} if w in (3, 8, 9, 12, 13, 15, 18, 19) else Q("C13"), unwind=200, stubs=REALLOC,
+          bound="LITERAL POINT: inv_large (hook verif_inv_large) in a 3-word ring m = (2^64+1)*c, case %d of 20: residues of 1-3 words with and without a common factor with m, expected value a constant computed outside; realloc stubbed as allocate + copy + free" % w)
     H("c14_ord_float_literals", "h_numord::ord_float_literals()", Q("C14"), "i64", unwind=16, bound="LITERAL POINTS: NumOrd of 7 small integers against 9 literal f32/f64 values (fractions, halves, integers, -0.0, NaN)")
     H("c06_from_float_literals", "h_conv::from_float_literals()", Q("C06"), "i64", unwind=16, bound="LITERAL POINTS: TryFrom<f32/f64> for IBig/UBig on 6 integral and 7 non-integral / non-finite literals")
     # h_float::ctx_add_literals (C03, not claimed) stays unregistered: see DESIGN 0.3
